@@ -60,6 +60,13 @@ def cell_job(job):
         def can_write(tok, priv): return (not priv or user_in) and (not tok or is_rw)
         obj_exists = not (private and not on_token and not user_in)      # a private session object is destroyed by the logout
         results = []; created_tags = {}
+        # handle guessing: whatever number is tried, a session that may not read private objects must not get the object's tag back
+        if not can_read:
+            for hn in list(range(1, h + 12)) + [h + 1000, 2 ** 32 - 1, 2 ** 64 - 1]:
+                rg = x.call('C_GetAttributeValue', s=s, o=hn, tmpl=[{'t': ck.CKA_LABEL, 'buf': 64}]); eg = (rg.get('tmpl') or [{}])[0]
+                if rg['rv'] == 0 and bytes.fromhex(eg.get('data', '')) == tag:
+                    part.violation(f'C_GetAttributeValue|role=guessed-handle|{kname(kind)}|{state}|read', 'a private object was read through a guessed handle number without user login', {'state': state, 'cls': cls, 'handle': hn, 'backend': job['backend']})
+            part.case((state, kname(kind), cls, 'guessed-handles'))
         def judge(role, allowed, r, outs=(), new_tag=None, new_kind=None):
             """allowed False: must fail, write nothing, create nothing.  allowed True: positive control."""
             ok = r['rv'] == 0; wrote = any(o and o.get('changed', 0) for o in outs)
@@ -179,7 +186,7 @@ def cell_job(job):
 
 W = {'open': 5, 'close': 2, 'closeall': 1, 'login': 5, 'logout': 4, 'create': 7, 'destroy': 3, 'setattr': 3, 'find': 4, 'copy': 3, 'getattr': 4}
 def run(ctx):
-    ctx.need('asan'); classes = ctx.q(CLASSES_Q, CLASSES_T); backends = ctx.q(('file',), ('file', 'db'))
+    ctx.need('asan'); classes = ctx.q(CLASSES_Q, CLASSES_T); backends = ('file', 'db')
     jobs = [dict(paths=ctx.paths, hdr=ctx.paths['asan']['hdr'], cfg='asan', scratch=ctx.scratch, state=st, kind=k, cls=c, backend=b) for b in backends for st in STATES for k in KINDS for c in classes]
     for part in pmap(cell_job, jobs, ctx.nproc): ctx.merge(part)
     ctx.extra['matrix'] = {'states': len(STATES), 'object_kinds': len(KINDS), 'classes': len(classes), 'backends': list(backends), 'exhaustive_over_listed_dimensions': not ctx.inconclusive}
